@@ -1016,7 +1016,9 @@ PROPS["C14"] = {
                 "symmetric norm = code norm for well-formed states, norm² = mean squared isochromat length (Parseval, composed with "
                 "C01's ensemble theorem), |F0| <= PD for every sequence of pulses / evolutions with T2 <= 2 T1 / shifts / spoilers "
                 "(1-D matrices, and n-D coordinate tables with diagonal contractions), scalar (D >= 0) and tensor (D positive "
-                "semi-definite) diffusion are such contractions. Not proved: merge/prune back-ends (searched)"],
+                "semi-definite) diffusion are such contractions; dropping rows by an even mask (the state cap, state pruning) keeps the "
+                "invariant, so capped and pruned simulations never exceed PD either (`C14Cap.capped_signal_le_PD`, "
+                "`pruned_signal_le_PD`). Not proved: the merging back-end (searched; merging can exceed PD, see F91 in DESIGN 0.4)"],
 }
 
 PROPS["C13"] = {
@@ -1199,7 +1201,7 @@ PROPS["C09"] = {
 EXTRA_MODULES = {
     "C01": ["EpgVerif.Tie.ApplySites"],
     "C02": ["EpgVerif.Tie.DiffSites", "EpgVerif.Props.C02Run", "EpgVerif.Props.C02Fam"],
-    "C03": ["EpgVerif.Tie.DiffSites", "EpgVerif.Props.C03Run", "EpgVerif.Props.C03Gen", "EpgVerif.Props.C03E", "EpgVerif.Props.C03Prog", "EpgVerif.Props.C03Diag", "EpgVerif.Props.C03EDiag", "EpgVerif.Props.C03P", "EpgVerif.Props.C03Phi", "EpgVerif.Props.C03R"],
+    "C03": ["EpgVerif.Tie.DiffSites", "EpgVerif.Props.C03Run", "EpgVerif.Props.C03Gen", "EpgVerif.Props.C03E", "EpgVerif.Props.C03Prog", "EpgVerif.Props.C03Diag", "EpgVerif.Props.C03EDiag", "EpgVerif.Props.C03P", "EpgVerif.Props.C03Phi", "EpgVerif.Props.C03R", "EpgVerif.Props.C03All"],
     "C04": ["EpgVerif.Tie.ShiftSites", "EpgVerif.Props.C04Multi"],
     "C05": ["EpgVerif.Tie.PhysSites", "EpgVerif.Props.C05Path", "EpgVerif.Props.C05Att"],
     "C06": ["EpgVerif.Tie.PhysSites", "EpgVerif.Tie.Exchange"],
@@ -1210,7 +1212,7 @@ EXTRA_MODULES = {
     "C11": ["EpgVerif.Tie.SeqSites", "EpgVerif.Props.C11Run", "EpgVerif.Props.C11Bind"],
     "C12": ["EpgVerif.Tie.SimSites", "EpgVerif.Tie.Modify"],
     "C13": ["EpgVerif.Tie.ShiftSites", "EpgVerif.Props.C13Prune", "EpgVerif.Props.C13Cap"],
-    "C14": ["EpgVerif.Tie.ShiftSites", "EpgVerif.Props.C14Bound", "EpgVerif.Props.C14Parseval", "EpgVerif.Props.C14Tensor"],
+    "C14": ["EpgVerif.Tie.ShiftSites", "EpgVerif.Props.C14Bound", "EpgVerif.Props.C14Parseval", "EpgVerif.Props.C14Tensor", "EpgVerif.Props.C14Cap"],
     "C15": ["EpgVerif.Tie.PhysSites", "EpgVerif.Props.C15Box3"],
     "C16": ["EpgVerif.Tie.CollSites"],
     "C18": ["EpgVerif.Tie.PhysSites", "EpgVerif.Tie.RFPulse"],
